@@ -227,11 +227,12 @@ def f_param(b, rng):
         n = rng.choice(cands)
         new = LogicNet('s', None, n.args, n.dests)
     else:
-        cands = _nets(b, '&|^~w+-')
+        cands = _nets(b, '&|^~w+-x<>=c*')
         if not cands:
             return None
         n = rng.choice(cands)
-        new = LogicNet(n.op, (0,), n.args, n.dests)
+        # any parameter at all is wrong on these ops, including the falsy ones
+        new = LogicNet(n.op, rng.choice([(0,), (), 0, '', False, (1, 2)]), n.args, n.dests)
     _replace(b, n, new)
     return 'bad op_param (%s): %s' % (kind, str(new).strip())
 
@@ -273,6 +274,17 @@ def f_dup_name(b, rng):
     return 'two wires named %s' % a.name
 
 
+def f_width_inplace(b, rng):
+    """no net or wire is added or removed: an operand wire's bitwidth attribute is changed in place"""
+    cands = [n for n in _nets(b, '&|^n') if not isinstance(n.args[1], (Input, Const)) and n.args[0] is not n.args[1]]
+    if not cands:
+        return None
+    n = rng.choice(cands)
+    w = n.args[1]
+    w.bitwidth = w.bitwidth + rng.choice([1, 2])
+    return 'operands of unequal width after an in-place change of %s.bitwidth: %s' % (w.name, str(n).strip())
+
+
 def f_comb_cycle(b, rng):
     cands = [n for n in _nets(b, '&|^') if not isinstance(n.dests[0], Output) and len(n.dests[0]) == len(n.args[0])]
     if not cands:
@@ -295,7 +307,7 @@ def f_comb_cycle(b, rng):
 FAULTS = [('two-drivers', f_two_drivers), ('undriven', f_undriven), ('undriven-register', f_undriven_reg), ('undriven-sync-address', f_undriven_sync_addr),
           ('unconnected', f_unconnected),
           ('foreign-wire', f_foreign), ('arity', f_arity), ('bitwidth', f_width), ('op-param', f_param),
-          ('input-const-dest', f_input_dest), ('output-arg', f_output_arg), ('dup-name', f_dup_name),
+          ('bitwidth-inplace', f_width_inplace), ('input-const-dest', f_input_dest), ('output-arg', f_output_arg), ('dup-name', f_dup_name),
           ('comb-cycle', f_comb_cycle)]
 
 
@@ -319,7 +331,8 @@ def main(ctx):
     tie_cases = tie_bad = 0
     for k in ctx.loop(n):
         rng = ctx.rng
-        d = gen.rand_design(rng, profile=('small', 'med', 'limb')[k % 3], raw=False, nops=rng.randint(3, 14))
+        d = gen.rand_design(rng, profile=('small', 'med', 'limb')[k % 3], raw=False, nops=rng.randint(3, 14),
+                            name_style=('plain', 'verilog-nospace')[(k // 2) % 2])
         if k % 2 == 0 and add_sync_mem(rng):
             ctx.count('sync-memory', 'added')
         desc = d.describe()
@@ -364,6 +377,12 @@ def main(ctx):
         # (b) one fault of each class
         for fname, inject in FAULTS:
             b2 = pyrtl.copy_block(d.block, update_working_block=False)
+            if rng.random() < 0.5:
+                # the block was checked (and simulated) while it was still well formed; the edit comes afterwards
+                b2.sanity_check()
+                if rng.random() < 0.5:
+                    construct(rng.choice(sims))(b2)
+                ctx.count('fault-after-clean-check', fname)
             what = inject(b2, rng)
             if what is None:
                 ctx.count('fault-not-applicable', fname)
